@@ -163,6 +163,13 @@ class C02(Prop):
                 yield {"k": "rot", "kind": "map", "g": g, "ins": enum.idmap(n)}
                 qs = sorted(rng.sample(range(n - 6, n + 1), 3))
                 yield {"k": "rot", "kind": "list", "g": [g[q - 1] for q in qs] + [g[-1]], "qs": qs, "ins": ops}
+        # (c4) a very wide register (520 qubits: arrays longer than numpy's print threshold of 1000 entries): rotation maps
+        # of generators that agree on their first and last entries, one after the other in the same process
+        n = 520
+        for q, l in ((250, 1), (250, 3), (251, 2), (250, 1)):
+            g = [0] * n + [0]
+            g[q] = l
+            yield {"k": "rotmap", "g": g, "pkg": "py"}
         # (d) rotation sequences with the inverse sequence appended (N = 3..5)
         for w in self.walks:
             yield w
